@@ -9,16 +9,13 @@ def prepare():
     import universe
     universe.build("quick")
     universe.build_general("quick")
+    universe.build_holes("quick")
 
 
 def run(tier, seed, t0):
     nconf, stride = (6, 40) if tier == "quick" else (10, 4)
     v, cov, shapes = pc.run_pairs(PID, tier, seed, "con", nconf, stride)
-    v, gcov, _ = pc.run_pairs(PID, tier, seed, "con", nconf, stride, general=True, v=v)
-    cov["general_slopes"] = pc.general_cov(gcov)
-    cov["evaluations"] += gcov["evaluations"]
-    cov["distinct_nontrivial"] += gcov["distinct_nontrivial"]
-    cov["known_finding_hits"] = v.known_hits
+    v = pc.extra_universes(PID, tier, seed, "con", nconf, stride, v, cov)
     rc = v.finish()
     cov["rule"] = pc.UNIVERSE_RULE + "; C03 checks A.ContainsX(B), objA.Contains(objB), objB.Within(objA) and Feature wrappers against the exact answer; every deviating call is evaluated by the L2 transcription (Trace_Pairs) and accepted only as a listed known finding when the code agrees with the transcription of the pinned algorithm"
     cov["exhaustive"] = stride == 1
